@@ -1,6 +1,8 @@
 import NomtModel.Core.MultiTotal
 import NomtModel.Core.TermHasher
 import NomtModel.Core.Complete
+import NomtModel.Core.MultiUpdateRoot
+import NomtModel.Core.MultiHonest
 /-!
 # C07 — Multi-proofs are equivalent to (and as sound as) the path proofs they bundle
 
@@ -12,10 +14,10 @@ code by the `core-mp` differential run.
 
 Not proved here (held by the differential run and its oracles only):
 * completeness of `findIndexFor` (a key covered by some verified path is found) — needs monotonicity of
-  the comparison over `inner`;
-* `multiVerifyUpdate` returns the specified root of the updated set (T8.3 for multi-proofs) and never
-  reaches one of its panic sites on a verified multi-proof;
-* `fromPathProofs` of ordered honest path proofs verifies (completeness).
+  the comparison over `inner`.
+Proved below: T7.4 `multiVerifyUpdate` returns the specified root of the updated set (T8.3 for
+multi-proofs; that it never reaches a panic site is T18.5 in `Props/C18.lean`); T7.5 `fromPathProofs` of
+honest path proofs succeeds and verifies (completeness); T7.6 the two together.
 -/
 namespace Nomt.C07
 open Nomt
@@ -138,5 +140,168 @@ example :
         | .err .invalidDepth => true
         | _ => false)
      | _ => false) = true := by decide
+
+
+/-- T7.4 **root correctness of the multi-proof update.**  `H` sound, `S` a canonical set of `L`-bit keys,
+`mp` ANY proof object that `verify` accepts against the root of `S`.  For ops with `L`-bit keys, strictly
+ascending, each in scope of some verified path (`key[..depth] = path()[..depth]`, what `terminal_contains`
+tests): `verify_update` (multi_proof.rs:688) returns exactly the root of the updated set
+`kvApply S ops` — the sequential model's batch application (`Api/KV.lean`), the same right-hand side as
+T8.3 for path proofs. -/
+theorem T7_4_multi_update_root (hs : H.Sound) (L : Nat) (S : List (Key × VH)) (hc : Canon L 0 S)
+    (hlen : ∀ kv ∈ S, kv.1.length = L) (mp : MultiProof Node VH) (v : VerifiedMulti Node VH)
+    (hv : verifyMulti H mp (nodeAt H L 0 S) = .ok v) (ops : List (Key × Option VH))
+    (hol : ∀ o ∈ ops, o.1.length = L) (hsorted : ops.Pairwise KeyLt)
+    (hscope : ∀ o ∈ ops, ∃ (j : Nat) (t : VPath VH), v.inner[j]? = some t ∧
+      o.1.take t.depth = t.terminal.path.take t.depth) :
+    multiVerifyUpdate H L v ops = .ok (nodeAt H L 0 (kvApply S ops)) :=
+  multiVerifyUpdate_eq_root hs S hc hlen mp hv ops hol hsorted hscope
+
+/-- T7.4a **soundness form**: whatever ops the caller supplies (any order, any scope), an `ok` verdict of
+the multi-proof update is the root of `kvApply S ops`; every other outcome is an error verdict
+(`OpsOutOfOrder` / `OpOutOfScope`), never a wrong root and never a panic (T18.5). -/
+theorem T7_4a_multi_update_sound (hs : H.Sound) (L : Nat) (S : List (Key × VH)) (hc : Canon L 0 S)
+    (hlen : ∀ kv ∈ S, kv.1.length = L) (mp : MultiProof Node VH) (v : VerifiedMulti Node VH)
+    (hv : verifyMulti H mp (nodeAt H L 0 S) = .ok v) (ops : List (Key × Option VH))
+    (hol : ∀ o ∈ ops, o.1.length = L) (r : Node) (h : multiVerifyUpdate H L v ops = .ok r) :
+    r = nodeAt H L 0 (kvApply S ops) :=
+  multiVerifyUpdate_sound hs S hc hlen mp hv ops hol r h
+
+/-- T7.4b **the multi-proof update is the path-proof update on the bundled path proofs** (no hash
+assumption, any root).  An accepted multi-proof is the pre-order layout of a recursion tree `T`
+(`TreeOf`); from it one path proof per verified terminal is reconstructed (`PTree.pins`: the route, the
+terminal, and the full sibling list — the common siblings of the enclosing bisections and the unique
+siblings from the proof, the other side of each bisection from the verified hashes).  Then
+
+1. each reconstructed path proof is accepted by `PathProof::verify` against the same root, with path =
+   the route of the verified multi-path;
+2. an `ok` verdict of `verify_update` (multi_proof.rs) on non-empty ops IS `verify_update`
+   (path_proof.rs, its hashing core `verifyUpdate`) on these path proofs, path `i` carrying the ops
+   `A i`, where the `A i` concatenate to the caller's ops, are strictly ascending and lie under terminal
+   `i`.
+
+(That the stack of `CommonSiblings` holds, for every terminal, exactly the proof-supplied siblings of the
+individual path proof is `advanceLoop_first` / `ingest_block` in `Core/MultiBlock.lean`.) -/
+theorem T7_4b_multi_update_is_path_update (L : Nat) (mp : MultiProof Node VH) (root : Node)
+    (v : VerifiedMulti Node VH) (hv : verifyMulti H mp root = .ok v)
+    (hleaf : ∀ vp ∈ v.inner, ∀ k x, vp.terminal = .leaf k x → k.length = L)
+    (hdepth : ∀ vp ∈ v.inner, vp.depth ≤ L) :
+    ∃ T : PTree Node VH, TreeOf H v T ∧
+      (∀ (A : Nat → List (Key × Option VH)), ∀ p ∈ T.pins H A root [] [] 0,
+        (∃ P, verify H L P p.inner.path root = .ok p.inner) ∧
+        ∃ (k : Nat) (vp : VPath VH), v.inner[k]? = some vp ∧ p.inner.path = vp.route ∧
+          p.inner.terminal = vp.terminal.asLeaf ∧ p.ops = A k) ∧
+      ∀ (ops : List (Key × Option VH)), (∀ o ∈ ops, o.1.length = L) → ops ≠ [] →
+        ∀ r, multiVerifyUpdate H L v ops = .ok r →
+          ∃ A : Nat → List (Key × Option VH), opsUpTo A v.inner.length = ops ∧ ops.Pairwise KeyLt ∧
+            (∀ i t, v.inner[i]? = some t → ∀ o ∈ A i, o.1.take t.depth = t.terminal.path.take t.depth) ∧
+            r = verifyUpdate H root ((T.pins H A root [] [] 0).map (toUpd H)) := by
+  obtain ⟨T, hT, _⟩ := verifyMulti_tree H mp root v hv
+  have hroot : v.root = root := (verifyMulti_ok H mp _ v hv).2.choose_spec.2.2.2.2.2.2
+  refine ⟨T, hT, ?_, ?_⟩
+  · intro A p hp
+    obtain ⟨k, vp, _, hget, h1, h2, h3⟩ := PTree.pins_spec H A root T [] [] 0 0 p hp
+    rw [← hT.inner] at hget
+    have hd : p.inner.path.length ≤ L := by
+      have hmem := List.mem_of_getElem? hget
+      have hmem' := hmem
+      rw [hT.inner] at hmem'
+      obtain ⟨_, h4, _⟩ := PTree.vpaths_route T [] 0 hT.al vp hmem'
+      rw [h1, h4]; exact hdepth vp hmem
+    exact ⟨PTree.pins_verified H A L root T [] [] 0 hT.wf rfl (by rw [← hroot, hT.root]; rfl) p hp hd,
+      k, vp, hget, h1, h2, by rw [h3, Nat.zero_add]⟩
+  · intro ops hol hne r hr
+    obtain ⟨A, _, hops, hsorted, hcover, hreq⟩ := (multiVerifyUpdate_spec ⟨hT, hleaf, hdepth⟩ ops hol).2.1 r hr hne
+    exact ⟨A, hops, hsorted, hcover, by rw [hreq, PTree.pins_map_toUpd, hroot]⟩
+
+/-! Non-vacuity of T7.4 (term hasher): a four-key set of 3-bit keys; the multi-proof of the two keys
+`010`, `011` has a recorded bisection (two common bits, two common siblings); a write, a delete and an
+insert below the two verified terminals give the root of the updated set. -/
+def exS4 : List (Key × Nat) :=
+  [([false, false, false], 1), ([false, true, false], 2), ([false, true, true], 3), ([true, false, false], 4)]
+def exMP4 : MultiProof T Nat :=
+  match fromPathProofs [proveSpec TH 3 exS4 [false, true, false], proveSpec TH 3 exS4 [false, true, true]] with
+  | .ok mp => mp
+  | _ => ⟨[], []⟩
+def exVM4 : VerifiedMulti T Nat :=
+  match verifyMulti TH exMP4 (nodeAt TH 3 0 exS4) with
+  | .ok v => v
+  | _ => ⟨[], [], [], T.term⟩
+theorem exVM4_ok : verifyMulti TH exMP4 (nodeAt TH 3 0 exS4) = .ok exVM4 := by rfl
+example : exVM4.bisections = [{ startDepth := 0, cStart := 0, cEnd := 2 }] := by decide
+
+example : multiVerifyUpdate TH 3 exVM4 [([false, true, false], some 9), ([false, true, true], none)]
+    = .ok (nodeAt TH 3 0 (kvApply exS4 [([false, true, false], some 9), ([false, true, true], none)])) := by
+  apply T7_4_multi_update_root TH TH_sound 3 exS4 (by simp [exS4, Canon, side]) (by simp [exS4]) exMP4 exVM4 exVM4_ok
+  · decide
+  · simp [KeyLt, bitsLt]
+  · intro o ho
+    simp only [List.mem_cons, List.not_mem_nil, or_false] at ho
+    rcases ho with rfl | rfl
+    · exact ⟨0, _, rfl, by decide⟩
+    · exact ⟨1, _, rfl, by decide⟩
+/-- the value computed by the mirror, evaluated: the deleted leaf's sibling is compacted upwards -/
+example : multiVerifyUpdate TH 3 exVM4 [([false, true, false], some 9), ([false, true, true], none)]
+    = .ok (.node (.node (.leaf [false, false, false] 1) (.leaf [false, true, false] 9)) (.leaf [true, false, false] 4)) := by
+  decide
+
+
+/-- T7.5 **completeness of `from_path_proofs` / `verify`.**  `S` a canonical set of `L`-bit keys, `ks` a
+non-empty list of `L`-bit keys whose specified path proofs (`proveSpec`, the proofs an honest prover
+reads off the trie; they are what the real prover emits — `core-pp`) have strictly ascending terminal
+paths (sorted, pairwise distinct terminals; that none is a prefix of another then follows).  Then
+
+* `MultiProof::from_path_proofs` succeeds on them (no panic site of the explicit-stack bisection loop is
+  reached, the fuel of the Lean loop suffices) and its terminals are those of the path proofs, in order;
+* `verify` accepts the result against the root of `S` (no hash assumption is needed for this direction);
+* the verified terminals are those of the path proofs, each at depth = the number of siblings of its path
+  proof; every proved key is in scope of the verified multi-proof (`terminal_contains` holds for its own
+  terminal), so the lookups and the update can be used for exactly the proved keys. -/
+theorem T7_5_from_path_proofs_complete (L : Nat) (S : List (Key × VH)) (hc : Canon L 0 S)
+    (hlen : ∀ kv ∈ S, kv.1.length = L) (ks : List Key) (hne : ks ≠ []) (hkl : ∀ k ∈ ks, k.length = L)
+    (hasc : (ks.map (fun k => (proveSpec H L S k).terminal.path)).Pairwise (fun a b => bitsLt a b = true)) :
+    ∃ (mp : MultiProof Node VH) (v : VerifiedMulti Node VH),
+      fromPathProofs (ks.map (proveSpec H L S)) = .ok mp ∧
+      verifyMulti H mp (nodeAt H L 0 S) = .ok v ∧
+      v.inner.map (·.terminal) = (ks.map (proveSpec H L S)).map (·.terminal) ∧
+      v.inner.map (·.depth) = (ks.map (proveSpec H L S)).map (·.siblings.length) ∧
+      mp.paths.map (·.terminal) = (ks.map (proveSpec H L S)).map (·.terminal) ∧
+      v.siblings = mp.siblings ∧ v.root = nodeAt H L 0 S ∧
+      (∀ k ∈ ks, ∃ (j : Nat) (t : VPath VH), v.inner[j]? = some t ∧
+        k.take t.depth = t.terminal.path.take t.depth) :=
+  fromPathProofs_complete H L S hc hlen ks hne hkl hasc
+
+/-- T7.5a (structural half, no trie involved): the pre-order layout of ANY well-formed aligned recursion
+tree is accepted by `verify` against the tree's own hash, with the tree's verified paths and
+bisections. -/
+theorem T7_5a_tree_layout_verifies (T : PTree Node VH) (hwf : T.WF) (hal : T.Aligned []) :
+    verifyMulti H { paths := T.mpaths [], siblings := T.flat } (T.hash H) =
+      .ok { inner := T.vpaths [] 0, bisections := T.vbis [] 0, siblings := T.flat, root := T.hash H } :=
+  verifyMulti_complete H T hwf hal
+
+/-- T7.6 **prove – bundle – verify – update, end to end.**  `H` sound, `S` canonical with `L`-bit keys.
+The specified path proofs of the keys `ks` (ascending terminals) are bundled by `from_path_proofs`, the
+bundle is accepted by `verify`, and for any strictly ascending ops on keys among `ks` the multi-proof
+update returns the root of `kvApply S ops`. -/
+theorem T7_6_multi_proof_end_to_end (hs : H.Sound) (L : Nat) (S : List (Key × VH)) (hc : Canon L 0 S)
+    (hlen : ∀ kv ∈ S, kv.1.length = L) (ks : List Key) (hne : ks ≠ []) (hkl : ∀ k ∈ ks, k.length = L)
+    (hasc : (ks.map (fun k => (proveSpec H L S k).terminal.path)).Pairwise (fun a b => bitsLt a b = true))
+    (ops : List (Key × Option VH)) (hops : ∀ o ∈ ops, o.1 ∈ ks) (hsorted : ops.Pairwise KeyLt) :
+    ∃ (mp : MultiProof Node VH) (v : VerifiedMulti Node VH),
+      fromPathProofs (ks.map (proveSpec H L S)) = .ok mp ∧
+      verifyMulti H mp (nodeAt H L 0 S) = .ok v ∧
+      multiVerifyUpdate H L v ops = .ok (nodeAt H L 0 (kvApply S ops)) := by
+  obtain ⟨mp, v, hfrom, hver, _, _, _, _, _, hscope⟩ := fromPathProofs_complete H L S hc hlen ks hne hkl hasc
+  exact ⟨mp, v, hfrom, hver, multiVerifyUpdate_eq_root hs S hc hlen mp hver ops
+    (fun o ho => hkl _ (hops o ho)) hsorted (fun o ho => hscope _ (hops o ho))⟩
+
+/-! Non-vacuity of T7.5 / T7.6 on the four-key set `exS4`: the keys `010`, `011`, `110` (the last one
+absent: its proof ends in the leaf `100`). -/
+example : ∃ mp v, fromPathProofs ([[false, true, false], [false, true, true], [true, true, false]].map
+      (proveSpec TH 3 exS4)) = .ok mp ∧ verifyMulti TH mp (nodeAt TH 3 0 exS4) = .ok v ∧
+    multiVerifyUpdate TH 3 v [([false, true, true], some 7), ([true, true, false], some 8)]
+      = .ok (nodeAt TH 3 0 (kvApply exS4 [([false, true, true], some 7), ([true, true, false], some 8)])) :=
+  T7_6_multi_proof_end_to_end TH TH_sound 3 exS4 (by simp [exS4, Canon, side]) (by simp [exS4]) _ (by simp)
+    (by decide) (by decide) _ (by decide) (by simp [KeyLt, bitsLt])
 
 end Nomt.C07
